@@ -5,7 +5,7 @@
   the invariant C01 proves for every constructible network) whose attribute dicts have distinct
   keys (`AttrWF`, true of every Python dict).
 -/
-import XgiModel.C19.Lemmas4
+import XgiModel.C19.Lemmas8
 
 namespace Xgi.C19
 open Xgi Xgi.HG
@@ -829,6 +829,268 @@ theorem idVal_injective (x y : PyId) (h : relabel.idVal x = relabel.idVal y)
 theorem relabel_frozen {s : HG} (hf : s.frozen = true) (labelAttr : String) :
     relabel s labelAttr = (s, .err .lib) := by
   unfold relabel; simp [hf]
+
+/-! ### cleanup
+
+  `cleanup'` is `Hypergraph.cleanup(in_place=True)` with the repaired connected step (the null network is left
+  alone, see proposed_fixes/C19-cleanup-null-network.diff); flags in the order of the Python signature:
+  `isolates singletons multiedges connected relabel`, `true` = allowed / requested.  All statements are for an
+  unfrozen network satisfying the invariant of C01 and a run that does not raise (the only raise left is the
+  `TypeError` of `sorted` on a class of repeated edges whose IDs are not mutually comparable). -/
+
+/-- `isolates=False`: no isolated node is left — for every setting of the other four flags -/
+theorem cleanup_post_no_isolates {s : HG} (hs : Live s) (b c d e : Bool) (r : HG × Outcome)
+    (hr : cleanup' s false b c d e = some r) (hne : r.2.isErr = false) : NoIso r.1 := by
+  obtain ⟨p0, _, _, hl0, h1, _⟩ := cleanup_chain hs false b c d e r hr hne
+  obtain ⟨_, s2, _⟩ := stepS_spec b hl0
+  obtain ⟨_, i2, i3, _⟩ := stepI_spec false s2
+  obtain ⟨_, c2, c3, _⟩ := stepC_spec d i2
+  obtain ⟨_, _, _, r4, _⟩ := stepR_spec e c2
+  rw [h1]; exact r4 (c3 (i3 rfl))
+
+/-- `singletons=False`: no edge with exactly one member is left — for every setting of the other four flags -/
+theorem cleanup_post_no_singletons {s : HG} (hs : Live s) (a c d e : Bool) (r : HG × Outcome)
+    (hr : cleanup' s a false c d e = some r) (hne : r.2.isErr = false) : NoSing r.1 := by
+  obtain ⟨p0, _, _, hl0, h1, _⟩ := cleanup_chain hs a false c d e r hr hne
+  obtain ⟨_, s2, s3, _⟩ := stepS_spec false hl0
+  obtain ⟨_, i2, _, i4, _⟩ := stepI_spec a s2
+  obtain ⟨_, c2, _, c4, _⟩ := stepC_spec d i2
+  obtain ⟨_, _, r3, _⟩ := stepR_spec e c2
+  rw [h1]; exact r3 (c4.noSing (i4.noSing (s3 rfl)))
+
+/-- `multiedges=False`: no two edges with the same member set are left — for every setting of the other four
+    flags (for a run that returns without error and without warning; the model's only warning would be an
+    already existing merged ID, which does not occur) -/
+theorem cleanup_post_no_multiedges {s : HG} (hs : Live s) (a b d e : Bool) (r : HG × Outcome)
+    (hr : cleanup' s a b false d e = some r) (hok : r.2 = .ok) : NoMulti r.1 := by
+  obtain ⟨p0, hp0, _, hl0, h1, h2⟩ := cleanup_chain hs a b false d e r hr (by rw [hok]; rfl)
+  simp only [Bool.false_eq_true, if_false] at hp0
+  have hp : p0 = (p0.1, .ok) := by
+    have : p0.2 = .ok := by rw [← h2, hok]
+    exact Prod.ext rfl this
+  rw [hp] at hp0
+  obtain ⟨m1, _⟩ := merge_noMulti hs p0.1 hp0
+  obtain ⟨_, s2, _, s4, _⟩ := stepS_spec b hl0
+  obtain ⟨_, i2, _, i4, _⟩ := stepI_spec a s2
+  obtain ⟨_, c2, _, c4, _⟩ := stepC_spec d i2
+  obtain ⟨_, _, _, _, r5, _⟩ := stepR_spec e c2
+  rw [h1]; exact r5 (c4.noMulti (i4.noMulti (s4.noMulti m1)))
+
+/-- `relabel=True`: the node and edge labels are exactly 0..n-1 and 0..m-1, in order — for every setting of
+    the other four flags -/
+theorem cleanup_post_labels {s : HG} (hs : Live s) (a b c d : Bool) (r : HG × Outcome)
+    (hr : cleanup' s a b c d true = some r) (hne : r.2.isErr = false) :
+    r.1.nodes = (List.range r.1.nodes.length).map (fun j => PyId.int (j : Nat)) ∧
+    r.1.edges = (List.range r.1.edges.length).map (fun j => PyId.int (j : Nat)) := by
+  obtain ⟨p0, _, _, hl0, h1, _⟩ := cleanup_chain hs a b c d true r hr hne
+  obtain ⟨_, s2, _⟩ := stepS_spec b hl0
+  obtain ⟨_, i2, _⟩ := stepI_spec a s2
+  obtain ⟨_, c2, _⟩ := stepC_spec d i2
+  obtain ⟨_, _, _, _, _, r6, _⟩ := stepR_spec true c2
+  have rl := r6 rfl
+  have hw := c2.1.1
+  rw [h1]
+  generalize (stepC d (stepI a (stepS b p0.1).1).1).1 = t at *
+  generalize (stepR true t).1 = u at *
+  constructor
+  · rw [rl.nodes, map_pos _ hw.nodupN]; simp
+  · rw [rl.edges, map_pos _ hw.nodupE]; simp
+
+/-- `connected=True` (partial): what is left is the node set chosen by `max(connected_components(…), key=len)`
+    on the network after the first three steps — a BFS component, closed under the edges — together with the
+    edges inside it; nothing else is touched by this step.  That the *result* has a single component (BFS from
+    its first node reaches everything) is not proved here; the harness checks it on every run. -/
+theorem cleanup_post_connected_partial {s : HG} (hs : Live s) (a b c : Bool) (r : HG × Outcome)
+    (hr : cleanup' s a b c true false = some r) (hne : r.2.isErr = false) :
+    ∃ t : HG, Live t ∧ EdgeClosed t (largestOrEmpty t) ∧
+      ((largestOrEmpty t = [] ∧ t.nodes = []) ∨ largestOrEmpty t ∈ components t) ∧
+      r.1.nodes = t.nodes.filter (· ∈ largestOrEmpty t) ∧
+      r.1.edges = t.edges.filter (fun e => (t.mem e).all (· ∈ largestOrEmpty t)) ∧
+      (∀ e ∈ r.1.edges, r.1.mem e = t.mem e) := by
+  obtain ⟨p0, _, _, hl0, h1, _⟩ := cleanup_chain hs a b c true false r hr hne
+  obtain ⟨_, s2, _⟩ := stepS_spec b hl0
+  obtain ⟨_, i2, _⟩ := stepI_spec a s2
+  obtain ⟨_, _, _, c4, c5⟩ := stepC_spec true i2
+  have hR : (stepR false (stepC true (stepI a (stepS b p0.1).1).1).1).1 = (stepC true (stepI a (stepS b p0.1).1).1).1 := rfl
+  rw [hR] at h1
+  generalize (stepI a (stepS b p0.1).1).1 = t at *
+  refine ⟨t, i2, ?_, ?_, by rw [h1]; exact (c5 rfl).1, by rw [h1]; exact (c5 rfl).2, by rw [h1]; exact c4.mem⟩
+  · unfold largestOrEmpty
+    cases hc : largestComponent t with
+    | none => exact edgeClosed_nil t
+    | some c => exact (largestComponent_closed i2.1.1 hc).1
+  · unfold largestOrEmpty
+    cases hc : largestComponent t with
+    | none =>
+      left; refine ⟨rfl, ?_⟩
+      -- no component at all: there is no node
+      rw [largestComponent_eq] at hc
+      cases hcomp : components t with
+      | nil =>
+        -- the fold adds a component for the first node
+        cases hn : t.nodes with
+        | nil => rfl
+        | cons v rest =>
+          exfalso
+          have : components t ≠ [] := by
+            unfold components; rw [hn]; simp only [List.foldl_cons, List.not_mem_nil, if_false, List.nil_append]
+            intro h0
+            have key : ∀ (l : List PyId) (acc : List (List PyId) × List PyId), acc.1 ≠ [] →
+                (l.foldl (fun (acc : List (List PyId) × List PyId) v =>
+                  if v ∈ acc.2 then acc else (acc.1 ++ [plainBfs t v], acc.2 ++ plainBfs t v)) acc).1 ≠ [] := by
+              intro l
+              induction l with
+              | nil => intro acc h; exact h
+              | cons a l ih =>
+                intro acc h; simp only [List.foldl_cons]; apply ih
+                split
+                · exact h
+                · simp
+            exact key rest _ (by simp) h0
+          exact this hcomp
+      | cons a l =>
+        rw [hcomp] at hc; simp only [List.foldl_cons] at hc
+        have hb : better none a = some a := rfl
+        rw [hb] at hc
+        exfalso
+        have key : ∀ (l : List (List PyId)) (b : List PyId), l.foldl better (some b) ≠ none := by
+          intro l
+          induction l with
+          | nil => intro b h; cases h
+          | cons x l ih =>
+            intro b; simp only [List.foldl_cons]
+            unfold better; simp only []; split <;> exact ih _
+        exact key l a hc
+    | some c =>
+      right
+      obtain ⟨pre, post, hcomp, _, _⟩ := largestComponent_spec hc
+      rw [hcomp]; simp
+
+/-- "only by deleting": without the merge and the relabelling, the result is a sub-network of the input — a
+    sub-list of its nodes and of its edges, every surviving edge with exactly its members and attributes, every
+    surviving node with its attributes, the network attributes untouched -/
+theorem cleanup_only_deletes {s : HG} (hs : Live s) (a b d : Bool) (r : HG × Outcome)
+    (hr : cleanup' s a b true d false = some r) : r.2 = .ok ∧ SubNet s r.1 := by
+  have hne : r.2.isErr = false := by
+    rw [cleanup'_eq] at hr
+    simp only [if_true, Option.map_some, Option.some.injEq] at hr
+    obtain ⟨s1, s2, _⟩ := stepS_spec b hs
+    rw [andThen_noerr (s, .ok) (stepS b) rfl s1] at hr
+    obtain ⟨i1, i2, _⟩ := stepI_spec a s2
+    rw [andThen_noerr ((stepS b s).1, .ok) (stepI a) rfl i1] at hr
+    obtain ⟨c1, c2, _⟩ := stepC_spec d i2
+    rw [andThen_noerr ((stepI a (stepS b s).1).1, .ok) (stepC d) rfl c1] at hr
+    obtain ⟨r1, _⟩ := stepR_spec false c2
+    rw [andThen_noerr ((stepC d (stepI a (stepS b s).1).1).1, .ok) (stepR false) rfl r1] at hr
+    rw [← hr]; rfl
+  obtain ⟨p0, hp0, _, _, h1, h2⟩ := cleanup_chain hs a b true d false r hr hne
+  simp only [if_true, Option.some.injEq] at hp0
+  subst hp0
+  obtain ⟨_, s2, _, s4, _⟩ := stepS_spec b hs
+  obtain ⟨_, i2, _, i4, _⟩ := stepI_spec a s2
+  obtain ⟨_, _, _, c4, _⟩ := stepC_spec d i2
+  refine ⟨h2, ?_⟩
+  have hR : (stepR false (stepC d (stepI a (stepS b s).1).1).1).1 = (stepC d (stepI a (stepS b s).1).1).1 := rfl
+  rw [h1, hR]
+  exact (s4.trans i4).trans c4
+
+/-- exactly what is removed by the singleton and isolates steps (no merge, no component step): the edges with
+    one member, then the nodes that are then in no edge -/
+theorem cleanup_exact_singletons_isolates {s : HG} (hs : Live s) (r : HG × Outcome)
+    (hr : cleanup' s false false true false false = some r) :
+    r.1.edges = s.edges.filter (fun e => decide ((s.mem e).length ≠ 1)) ∧
+    r.1.nodes = s.nodes.filter (fun n => decide (r.1.memb n ≠ [])) := by
+  obtain ⟨hok, _⟩ := cleanup_only_deletes hs false false false r hr
+  obtain ⟨p0, hp0, _, _, h1, _⟩ := cleanup_chain hs false false true false false r hr (by rw [hok]; rfl)
+  simp only [if_true, Option.some.injEq] at hp0
+  subst hp0
+  obtain ⟨_, s2, _, s4, s5⟩ := stepS_spec false hs
+  obtain ⟨_, _, _, _, i5, i6⟩ := stepI_spec false s2
+  have hR : (stepR false (stepC false (stepI false (stepS false s).1).1).1).1 = (stepI false (stepS false s).1).1 := rfl
+  rw [h1, hR]
+  have g := stageI_spec s2
+  have hmemb : (stepI false (stepS false s).1).1.memb = (stepS false s).1.memb := by
+    have hs' : stepI false (stepS false s).1 = guardF (stepS false s).1 (removeNodesFrom (stepS false s).1 (isolates (stepS false s).1) false true) := rfl
+    rw [hs', guardF_live _ _ s2.2]
+    exact (removeIsolated_spec (isolates (stepS false s).1) (stepS false s).1 (nodup_filter _ s2.1.1.nodupN) (by
+      intro n hn
+      simp only [isolates, List.mem_filter, decide_eq_true_eq, List.length_eq_zero_iff] at hn
+      exact hn)).2.2.2.2.1
+  refine ⟨by rw [i5, s5 rfl], ?_⟩
+  rw [i6 rfl, hmemb]
+  have hn : (stepS false s).1.nodes = s.nodes := by
+    have := s4.nodes
+    have hs' : stepS false s = guardF s (removeEdgesFrom s (singletons s)) := rfl
+    rw [hs']; exact (stageS_spec hs).2.2.2.1.nodes
+  rw [hn]
+
+/-- the repaired connected step is the modelled original one (`HG.lccInPlace`) whenever there is a component,
+    i.e. on every network with a node; on the null network the original raises `ValueError` -/
+theorem lccInPlace'_eq {t : HG} {c : List PyId} (hc : largestComponent t = some c) : lccInPlace' t = lccInPlace t := by
+  unfold lccInPlace' lccInPlace largestOrEmpty; rw [hc]; rfl
+
+theorem lccInPlace_null {t : HG} (hc : largestComponent t = none) :
+    lccInPlace t = (t, .err .valueError) ∧ (t.frozen = false → lccInPlace' t = (t, .ok)) := by
+  refine ⟨by unfold lccInPlace; rw [hc], ?_⟩
+  intro hf
+  unfold lccInPlace' largestOrEmpty; rw [hc]
+  simp only [Option.getD_none, List.not_mem_nil, not_false_eq_true, decide_true]
+  rw [guardF_live _ _ hf]
+  -- no component means no node (see `cleanup_post_connected_partial`), in any case nothing is removed
+  have hn : t.nodes = [] := by
+    cases hn : t.nodes with
+    | nil => rfl
+    | cons v rest =>
+      exfalso
+      rw [largestComponent_eq] at hc
+      have hne : components t ≠ [] := by
+        unfold components; rw [hn]; simp only [List.foldl_cons, List.not_mem_nil, if_false, List.nil_append]
+        have key : ∀ (l : List PyId) (acc : List (List PyId) × List PyId), acc.1 ≠ [] →
+            (l.foldl (fun (acc : List (List PyId) × List PyId) v =>
+              if v ∈ acc.2 then acc else (acc.1 ++ [plainBfs t v], acc.2 ++ plainBfs t v)) acc).1 ≠ [] := by
+          intro l
+          induction l with
+          | nil => intro acc h; exact h
+          | cons a l ih =>
+            intro acc h; simp only [List.foldl_cons]; apply ih
+            split
+            · exact h
+            · simp
+        exact key rest _ (by simp)
+      cases hcomp : components t with
+      | nil => exact hne hcomp
+      | cons a l =>
+        rw [hcomp] at hc; simp only [List.foldl_cons] at hc
+        have hb : better none a = some a := rfl
+        rw [hb] at hc
+        have key : ∀ (l : List (List PyId)) (b : List PyId), l.foldl better (some b) ≠ none := by
+          intro l
+          induction l with
+          | nil => intro b h; cases h
+          | cons x l ih =>
+            intro b; simp only [List.foldl_cons]
+            unfold better; simp only []; split <;> exact ih _
+        exact key l a hc
+  rw [hn]; rfl
+
+/-! ### the `in_place=False` variants work on `self.copy()` -/
+
+/-- `H.cleanup(in_place=False)` and `convert_labels_to_integers(H, in_place=False)` are the in-place functions
+    applied to `H.copy()`, an equal unfrozen network with the same counter (so every theorem above applies to
+    them with `(copy H).1` in place of `H`, whether or not `H` itself is frozen) -/
+theorem not_in_place_is_copy_then_in_place {s : HG} (hi : Inv s) (ha : AttrWF s) :
+    (∀ a b c d e, cleanupNew s a b c d e = cleanup' (copy s).1 a b c d e) ∧
+    (∀ l, relabelNew s l = relabel (copy s).1 l) ∧
+    SameNet s (copy s).1 ∧ Live (copy s).1 ∧ AttrWF (copy s).1 := by
+  obtain ⟨c1, c2, c3, c4, c5⟩ := copy_fields hi.1 ha
+  refine ⟨?_, ?_, c2, ⟨inv_of_same_edges hi c5 c2.edges c4, c3⟩, c2.attrWF ha⟩
+  · intro a b c d e
+    unfold cleanupNew
+    simp only [c1, Outcome.isErr, Bool.false_eq_true, if_false, join_ok]
+    cases cleanup' (copy s).1 a b c d e <;> rfl
+  · intro l
+    unfold relabelNew
+    rw [andThen_of_ok _ _ c1]
 
 /-! ### non-vacuity: concrete networks satisfy the hypotheses and the functions evaluate as stated -/
 
